@@ -217,10 +217,16 @@ impl<A> Future for Addr<A> {
     type Output = Result<()>;
     fn poll(self: Pin<&mut Self>, cx: &mut std::task::Context<'_>) -> Poll<Self::Output> {
         log::trace!("polling actor");
-        self.get_mut()
-            .running
-            .poll_unpin(cx)
-            .map(|p| p.map_err(Into::into))
+        let this = self.get_mut();
+        // A `Shared` that has returned its output is used up: polling it again - or a clone made
+        // of it afterwards - panics. Keep a copy taken before the poll, so that an address that
+        // was awaited by reference stays an address: it (and its clones) resolve again.
+        let spare = this.running.clone();
+        let poll = this.running.poll_unpin(cx);
+        if poll.is_ready() {
+            this.running = spare;
+        }
+        poll.map(|p| p.map_err(Into::into))
     }
 }
 
